@@ -14,7 +14,8 @@ class C10(Check):
             "consumption patterns from {0,1,k,all-1,all} and random, cyclic; plus archives the stream must refuse "
             "(encrypted, data descriptor) and damaged local headers.  Compared: the streamed sequence with the model "
             "(metadata, partial/complete content, end-of-entries), the visitor's file and metadata callbacks with the "
-            "model, and (oracle) the streamed sequence with the seekable reader on the same bytes.  non-trivial = "
+            "model, and (oracle) the streamed sequence with the seekable reader on the same bytes, over a plain cursor and "
+            "over sources that deliver 1, 7 or random-sized short reads.  non-trivial = "
             ">= 2 entries or a partial consumption; distinct = distinct output")
     trusted = ["tools/genzip.py reference builder"]
     assumptions = ["compressed entries are compared up to metadata in the model (SKIP) and judged by the seekable-vs-stream oracle"]
@@ -29,6 +30,11 @@ class C10(Check):
             for p in (pats if self.tier == "thorough" else r.sample(pats, 3)):
                 cases.append(("stream_consume %s %s" % (hexs(data), hexs(p)), dict(k="consume", expect=expect, n=n, pat=p.hex())))
                 cases.append(("stream_vs_seek %s %s" % (hexs(data), hexs(p)), dict(k="vs", expect=expect, n=n, pat=p.hex(), impl_only=True)))
+                # the same walk over a stream that delivers short reads (unread remainders must still be skipped entirely)
+                for plan in (bytes([1]), bytes([7]), bytes(r.randrange(1, 40) for _ in range(64))):
+                    pl = (plan * (4 * len(data) // len(plan) + 64))[:65535]
+                    cases.append(("stream_vs_seek %s %s %s" % (hexs(data), hexs(p), hexs(pl)),
+                                  dict(k="vs", expect=expect, n=n, pat=p.hex(), impl_only=True, chunked=True)))
             cases.append(("visit " + hexs(data), dict(k="visit", expect=expect, n=n)))
         for a in range(120 if self.tier == "quick" else 3000):
             k = r.choice([1, 1, 2, 3, 5, 9])
